@@ -450,6 +450,43 @@ func (c *Ctx) Discharge(s *PanicSite, depth int) (bool, string) {
 			k, _ := strconv.ParseInt(e.Args[1].S, 10, 64)
 			return c.requireLen(s, e.Args[0].Args[0], k, depth)
 		}
+		// count = X - k behind a test that says k <= X (X > k-1, !(X <= k-1), X >= k, in either operand order)
+		if e.K == "bin" && e.S == "-" && e.Args[1].K == "const" {
+			if k, err := strconv.ParseInt(e.Args[1].S, 10, 64); err == nil && k >= 0 {
+				x := e.Args[0].String()
+				atLeast := &Cond{Name: "operand >= subtrahend", Match: func(f *Fact, _ *Origins) bool {
+					if f.Kind != "cmp" || f.A == nil || f.B == nil {
+						return false
+					}
+					a, b, op, pos := f.A, f.B, f.Op.String(), f.Pos
+					if b.String() == x && a.K == "const" {
+						a, b = b, a
+						op = map[string]string{"<": ">", "<=": ">=", ">": "<", ">=": "<=", "==": "==", "!=": "!="}[op]
+					}
+					if a.String() != x || b.K != "const" {
+						return false
+					}
+					v, err := strconv.ParseInt(b.S, 10, 64)
+					if err != nil {
+						return false
+					}
+					switch op {
+					case ">":
+						return (pos && v >= k-1)
+					case ">=":
+						return (pos && v >= k)
+					case "<=":
+						return (!pos && v >= k-1)
+					case "<":
+						return (!pos && v >= k)
+					}
+					return false
+				}}
+				if ok, _ := o.Requires(s.Instr, atLeast); ok {
+					return true, "count is X - k behind a test that X >= k"
+				}
+			}
+		}
 		return false, "strings.Repeat count not known to be non-negative: " + short(e.String(), 100)
 	case "makelen":
 		e := o.Of(s.Idx)
